@@ -32,7 +32,8 @@ RULE = ("rules = 1..3 detections (maps, lists of maps, keyword lists, plain valu
         "non-trivial = >= 2 atoms and an operator, or an in-list / string-operator / expansion shortcut taken; "
         "plus drift-only probes: the same rules behind a pipeline dropping the items of 1..3 fields (vanished operands, "
         "one-operand nodes, vanished conditions), compared with the model converter only"
-        "; values incl. timestamp-part modifiers and non-ASCII base64 payloads; plus drift-only probes behind a drop pipeline (vanished operands)")
+        "; values incl. timestamp-part modifiers and non-ASCII base64 payloads; plus drift-only probes behind a drop pipeline (vanished operands)"
+        "; a stream where the backend class converted another rule (negations, all string operators) before the probed one; configurations without case-sensitive templates")
 ASSUMPTIONS = [
     "atoms are independent boolean variables identified by (field, match kind, decoded value): equivalence is judged as boolean functions of these",
     "the emitted text is tokenised by harness/qsyntax.py for a fixed unambiguous template syntax (string/field escaping itself is C05's subject)",
